@@ -107,9 +107,10 @@ def path(f, st, depth=0):
         if kind == "param":
             return "p:" + d["name"]
         if kind in ("local", "static_local", "binding"):
-            if kind == "local" and d.get("ref") and depth < 30:
-                # a local reference is an alias of the lvalue it is bound to
-                tgt = _ref_target(f, d["name"])
+            if kind == "local" and depth < 30:
+                # a local reference is an alias of the lvalue it is bound to (and a never-reassigned pointer copy of
+                # a member pointer the function only reads denotes that member's pointee)
+                tgt = _ref_target(f, d["id"])
                 if tgt is not None:
                     p = path(f, tgt, depth + 5)
                     if p is not None and "l:__" not in p:
@@ -188,7 +189,7 @@ def path(f, st, depth=0):
 
 
 def _ref_target(f, name):
-    """initialiser of the local reference `name` when it binds an lvalue (not a temporary)"""
+    """initialiser of the local reference with declaration id `name` when it binds an lvalue (not a temporary)"""
     cache = getattr(f, "_ref_cache", None)
     if cache is None:
         cache = {}
@@ -200,11 +201,32 @@ def _ref_target(f, name):
                         iu = unwrap(f, init)
                         if iu is not None and iu.get("vk") == "l" and iu["k"] in ("MemberExpr", "DeclRefExpr", "UnaryOperator",
                                                                                  "CXXOperatorCallExpr"):
-                            cache[d["name"]] = init
+                            cache[d["id"]] = init
                         else:
-                            cache.setdefault(d["name"], None)
+                            cache.setdefault(d["id"], None)
+                    elif not d.get("ref") and d.get("init") and d.get("k") == "local" and \
+                            d.get("type", "").rstrip().endswith(("*", "*const", "* const")):
+                        # a pointer local that is a never-reassigned copy of a member pointer this function only reads
+                        # (`node* const self = m_zombie;`) denotes the same object as the member for the whole body
+                        iu = unwrap(f, f.s(d["init"]))
+                        if iu is not None and iu["k"] == "MemberExpr" and iu["m"].get("is_field") and \
+                                (unwrap(f, f.s(iu.get("base"))) or {}).get("k") == "CXXThisExpr" and \
+                                _only_rvalue_uses(f, lambda x: x["k"] == "DeclRefExpr" and x["d"].get("id") == d["id"]) and \
+                                _only_rvalue_uses(f, lambda x: x["k"] == "MemberExpr" and x["m"].get("id") == iu["m"].get("id")):
+                            cache[d["id"]] = f.s(d["init"])
         f._ref_cache = cache
     return cache.get(name)
+
+
+def _only_rvalue_uses(f, pred):
+    for st in f.stmts.values():
+        if pred(st):
+            par = f.par(st)
+            while par is not None and par["k"] == "ParenExpr":
+                par = f.par(par)
+            if par is None or par["k"] != "ImplicitCastExpr" or par.get("ck") != "LValueToRValue":
+                return False
+    return True
 
 
 def subst(p, mapping):
@@ -818,6 +840,14 @@ class Engine:
                 sub = self._lock_value(g, la, lk, g.pos_of(e) or pos)
                 if sub is None:
                     return None
+                if sub.st == MAYBE:
+                    sp = self._owns_correlated(g, args[0], lk)
+                    if sp is not None:
+                        # `T* d = lk.owns_lock() ? obj : nullptr; return handle(d, std::move(lk));`
+                        return [dict(data=sp[0], mutex=sub.mutex, mode=sub.mode if sub.mutex else mode, st=HELD,
+                                     blocking=False, cond=cond, site=g.loc(e)),
+                                dict(data=sp[1], mutex=sub.mutex, mode=sub.mode if sub.mutex else mode, st=UNOWNED,
+                                     blocking=False, cond=cond, site=g.loc(e))]
                 return [dict(data=data, mutex=sub.mutex, mode=sub.mode if sub.mutex else mode,
                              st=sub.st, blocking=False, cond=cond, site=g.loc(e))]
             if lc:
@@ -844,6 +874,44 @@ class Engine:
         if k == "InitListExpr":
             return None
         return None
+
+    def _owns_correlated(self, g, data_e, lock_e):
+        """data_e is a local defined once as `<lock>.owns_lock() ? A : B` (or operator bool) on the very lock object
+        lock_e, which nothing else operates on: (data when owned, data when not owned), else None"""
+        d = unwrap(g, data_e)
+        lk = unwrap(g, lock_e)
+        while lk is not None and ((lk["k"] in CALLS and callee_fq(lk) in PASS_THROUGH_FUNCS) or
+                                  (lk["k"] in CTORS and len(lk["args"]) == 1 and lock_class(lk.get("t", "")))):
+            lk = unwrap(g, g.s(lk["args"][0]))
+        lp = path(g, lk) if lk is not None else None
+        if d is None or d["k"] != "DeclRefExpr" or d["d"].get("k") != "local" or d["d"].get("ref") or not lp:
+            return None
+        did = d["d"]["id"]
+        if not _only_rvalue_uses(g, lambda x: x["k"] == "DeclRefExpr" and x["d"].get("id") == did):
+            return None
+        init = None
+        for st in g.stmts.values():
+            if st["k"] == "DeclStmt":
+                for dd in st["decls"]:
+                    if dd["id"] == did and dd.get("init"):
+                        init = unwrap(g, g.s(dd["init"]))
+        if init is None or init["k"] != "ConditionalOperator":
+            return None
+        c = unwrap(g, g.s(init["cond"]))
+        neg = False
+        while c is not None and c["k"] == "UnaryOperator" and c["op"] == "!":
+            neg = not neg
+            c = unwrap(g, g.children(c)[0])
+        if c is None or c["k"] != "CXXMemberCallExpr" or (c.get("callee") or {}).get("name") not in ("owns_lock", "operator bool") \
+                or path(g, g.s(c["obj"])) != lp:
+            return None
+        # nothing else may operate on the lock object (its state at the test is its state at the hand-over)
+        for st in g.stmts.values():
+            if st["k"] == "CXXMemberCallExpr" and st["id"] != c["id"] and path(g, g.s(st["obj"])) == lp and \
+                    (st.get("callee") or {}).get("name") not in ("owns_lock", "operator bool", "mutex"):
+                return None
+        a, b = self._data_path(g, g.s(init["then"])), self._data_path(g, g.s(init["else"]))
+        return (b, a) if neg else (a, b)
 
     def _data_path(self, g, e):
         e2 = unwrap(g, e)
@@ -1079,6 +1147,19 @@ def describe_cond_arm(f, st, cond_path):
                 if _contains(f, f.s(a.get("else")), st):
                     return neg
         cur = a
+    # flow form: `if (cond) return ...;` followed by the other case - the branch fact that reaches st decides
+    from .typestate import NonNull
+    nn = getattr(f, "_nn_cache", None)
+    if nn is None:
+        nn = NonNull(f)
+        f._nn_cache = nn
+    pos = f.pos_of(st)
+    if pos is not None:
+        facts = nn.before.get(tuple(pos), set())
+        if ("nn", cond_path) in facts:
+            return True
+        if ("null", cond_path) in facts:
+            return False
     return None
 
 
@@ -1196,4 +1277,46 @@ def atomic_field_of(f, op):
         o = unwrap(f, f.children(o)[0])
     if o is not None and o["k"] == "MemberExpr" and o["m"].get("is_field"):
         return (o["m"].get("rec"), o["m"]["name"])
+    if o is not None and o["k"] == "DeclRefExpr" and o["d"].get("k") == "local" and o["d"].get("ref"):
+        # a local reference bound directly to an atomic member
+        tgt = unwrap(f, _ref_target(f, o["d"]["id"]))
+        if tgt is not None and tgt["k"] == "MemberExpr" and tgt["m"].get("is_field"):
+            return (tgt["m"].get("rec"), tgt["m"]["name"])
+    return None
+
+
+def atomic_fields_may(f, op):
+    """all members an atomic operation may act on: the direct member, or - through a local reference initialised
+    with a conditional expression - either arm"""
+    fld = atomic_field_of(f, op)
+    if fld:
+        return [fld]
+    st = op["st"]
+    o = f.s(st["obj"]) if st["k"] == "CXXMemberCallExpr" else f.s(st["args"][0])
+    o = unwrap(f, o)
+    out = []
+    if o is not None and o["k"] == "DeclRefExpr" and o["d"].get("k") == "local" and o["d"].get("ref"):
+        for s_ in f.stmts.values():
+            if s_["k"] == "DeclStmt":
+                for d in s_["decls"]:
+                    if d["id"] == o["d"]["id"] and d.get("init"):
+                        work = [unwrap(f, f.s(d["init"]))]
+                        while work:
+                            e = work.pop()
+                            if e is None:
+                                continue
+                            if e["k"] == "ConditionalOperator":
+                                work += [unwrap(f, f.s(e["then"])), unwrap(f, f.s(e["else"]))]
+                            elif e["k"] == "MemberExpr" and e["m"].get("is_field"):
+                                out.append((e["m"].get("rec"), e["m"]["name"]))
+    return out
+
+
+def atomic_param_of(f, op):
+    """name of the reference parameter an atomic operation goes through (helpers taking std::atomic<T>&), or None"""
+    st = op["st"]
+    o = f.s(st["obj"]) if st["k"] == "CXXMemberCallExpr" else f.s(st["args"][0])
+    o = unwrap(f, o)
+    if o is not None and o["k"] == "DeclRefExpr" and o["d"].get("k") == "param":
+        return o["d"]["name"]
     return None
